@@ -214,7 +214,15 @@ func runCase(d *Def, c *Case) (res Res) {
 	getoptions.Writer = &w
 	getoptions.VerifSetCompletionWriter(&cw)
 	getoptions.VerifSetExitFn(func(code int) { res.Exits = append(res.Exits, code) })
-	b = Build(cfg)
+	early := c.HasPre && c.PreEarly && c.Comp == "" && cfg.HelpOpt() != 0
+	if early {
+		b = BuildWith(cfg, func(b *Built) {
+			b.Root.Parse(StringsOf(c.Pre))
+			w.Reset()
+		})
+	} else {
+		b = Build(cfg)
+	}
 	args := StringsOf(c.Argv)
 	if c.Comp != "" {
 		os.Setenv("COMP_LINE", strings.Join(args, " "))
@@ -236,7 +244,7 @@ func runCase(d *Def, c *Case) (res Res) {
 			args = append([]string{}, c.RawArgs...)
 		}
 	}
-	if c.HasPre && c.Comp == "" {
+	if c.HasPre && c.Comp == "" && !early {
 		b.Root.Parse(StringsOf(c.Pre))
 		w.Reset()
 	}
